@@ -113,17 +113,24 @@ def kinds_on_branch(test, branch: bool) -> Optional[Set[str]]:
   return None
 
 
-def eval3(test, kind: Optional[str], param_var: Optional[str] = None):
+def eval3(test, kind: Optional[str], param_var: Optional[str] = None,
+          f=None):
   """Three-valued truth of `test` for a parameter of the given kind (None =
 
   "no such parameter": `param_var is None` holds).  True / False / None
   (unknown: depends on something other than the kind).
   """
+  if f is not None and isinstance(test, ast.Name) and test.id != param_var:
+    # a test held in a local: is_positional_only = param.kind == ...
+    from fdlstatic import roles  # pylint: disable=g-import-not-at-top
+    d = roles.deref(f, test, 1)
+    if d is not test:
+      return eval3(d, kind, param_var, None)
   if isinstance(test, ast.UnaryOp) and isinstance(test.op, ast.Not):
-    v = eval3(test.operand, kind, param_var)
+    v = eval3(test.operand, kind, param_var, f)
     return None if v is None else not v
   if isinstance(test, ast.BoolOp):
-    vals = [eval3(v, kind, param_var) for v in test.values]
+    vals = [eval3(v, kind, param_var, f) for v in test.values]
     if isinstance(test.op, ast.And):
       if any(v is False for v in vals):
         return False
@@ -181,7 +188,8 @@ def residual(test, kind: Optional[str], param_var: Optional[str] = None):
 
 
 def reachable_for_kind(g, start_nodes, target: int, kind: Optional[str],
-                       param_var: Optional[str], stop: Set[int]) -> bool:
+                       param_var: Optional[str], stop: Set[int],
+                       f=None) -> bool:
   """Can `target` be reached from `start_nodes` when every kind test is
 
   decided for a parameter of `kind` (unknown tests go both ways)?
@@ -196,7 +204,7 @@ def reachable_for_kind(g, start_nodes, target: int, kind: Optional[str],
     if n == target:
       return True
     if g.kind[n] == 'if':
-      v = eval3(g.stmt[n].test, kind, param_var)
+      v = eval3(g.stmt[n].test, kind, param_var, f)
       for m, lab in g.succ[n]:
         if lab == 'exc':
           continue
